@@ -215,7 +215,13 @@ func (encryptor *HashQuery) replaceValuesWithHMACs(ctx context.Context, values [
 	newValues := make([]base.BoundValue, len(values))
 	copy(newValues, values)
 
+	// a placeholder used in several conditions is still one bound value: transform it once
+	processed := make(map[int]struct{}, len(placeholders))
 	for _, valueIndex := range placeholders {
+		if _, done := processed[valueIndex]; done {
+			continue
+		}
+		processed[valueIndex] = struct{}{}
 		var encryptionSetting config.ColumnEncryptionSetting = nil
 		if bindData != nil {
 			setting, ok := bindData[valueIndex]
